@@ -134,6 +134,47 @@ def choice_instant_cases(ctx):
                                                                                                            engine=[res["status"], res.get("output"), res.get("error")]), None)
 
 
+def sync_call_timer_cases(ctx):
+    """The guard timer of a StartSyncExecution call is superseded by the call's completion: once the call has its answer no timer of it stays armed, and
+    nothing happens when its period (30 min) has passed - also when the same execution name is used again meanwhile."""
+    machines = {"pass": {"StartAt": "A", "States": {"A": {"Type": "Pass", "End": True}}},
+                "task": {"StartAt": "A", "States": {"A": F.T("echo", End=True)}},
+                "fail": {"StartAt": "A", "States": {"A": {"Type": "Fail", "Error": "E", "Cause": "c"}}}}
+    for j, (name, asl) in enumerate(machines.items()):
+        if not ctx.mine(j):
+            continue
+        ctx.evaluation(); ctx.count("sync_call_timer_cases"); ctx.nontrivial(["sync-call", name])
+        with World(seed=ctx.seed) as w:
+            sm = w.create_machine("x", asl, typ="EXPRESS")
+            w.add_worker("echo", G.worker_behaviour({"echo": ["echo"]}))
+            def call(nm):
+                t = w.api_task("StartSyncExecution", {"stateMachineArn": sm, "name": nm, "input": "{}"})
+                w.pump(20); w.step_hooks.append(lambda world, act: world.pump(4))
+                w.run(until=lambda world: t.done()); w.pump(20)
+                w.step_hooks.pop()
+                return t.result() if t.done() else (None, "pending")
+            code, body = call("same")
+            eng = next(iter(w.engines.values()))
+            armed = [getattr(t.cb, "__qualname__", "?") for t in eng.conn.timers if not w.is_housekeeping(t)]
+            wit = dict(machine=name, first_call=[code, str(body)[:120]])
+            if code != 200:
+                ctx.violation("StartSyncExecution-did-not-answer", wit, None)
+                continue
+            if armed:
+                ctx.violation("superseded-timer-still-armed-after-the-call-completed", dict(wit, armed=armed), None)
+            n0 = len(w.broker.oplog)
+            w.advance(1700); w.run()
+            code2, body2 = call("same")            # the same name again, shortly before the first call's period would have ended
+            w.advance(200); w.run()                # ... and past it
+            w.pump(20)
+            ops = [(r["op"], r.get("routing_key")) for r in w.broker.oplog[n0:] if (r["conn"] or "").startswith("engine:") and r["op"] == "basic_publish" and r.get("exchange") == ""]
+            if code2 != 200 or (isinstance(body2, dict) and isinstance(body, dict) and body2.get("status") != body.get("status")):
+                ctx.violation("cancelled-or-superseded-timer-had-an-effect", dict(wit, second_call=[code2, str(body2)[:160]]), None)
+            errs = getattr(w, "loop_errors", None)
+            if errs:
+                ctx.violation("cancelled-or-superseded-timer-had-an-effect", dict(wit, loop_errors=[str(e)[:200] for e in errs]), None)
+
+
 # ----------------------------------------------------------------------------- W: Wait states
 def iso(t, offset_minutes=0, frac=False):
     tz = _dt.timezone(_dt.timedelta(minutes=offset_minutes))
@@ -398,6 +439,7 @@ def timeout_case(ctx, rng, k):
 def run(ctx):
     check_parser(ctx)
     choice_instant_cases(ctx)
+    sync_call_timer_cases(ctx)
     n_wait = ctx.pick(400, 40000)
     for k in range(n_wait):
         if ctx.mine(k):
